@@ -320,3 +320,16 @@ Definition set_active (count : Z) (it : item) : option cerr :=
   | ItAll => None
   | ItOther => Some CValue
   end.
+
+(* ---- point_triangle on the grid: the sub-triangle of (a, b, c) at corner a made of the points whose barycentric
+   coordinates satisfy alpha >= 1 - t and beta <= s * (1 - alpha); two successive uniform() values (m1/N, m2/N)
+   land in it exactly when temp = sqrt(m1/N) <= t and m2/N <= s ---- *)
+Definition corner_region (t s : Q) (a b c : pt) : pt * pt * pt :=
+  (a,
+   (px a + s * t * (px b - px a) + (1 - s) * t * (px c - px a), py a + s * t * (py b - py a) + (1 - s) * t * (py c - py a)),
+   (px a + t * (px c - px a), py a + t * (py c - py a))).
+Definition in_corner_region (t s temp u2 : Q) : bool := Qle_bool temp t && Qle_bool u2 s.
+Definition grid_u (N m : nat) : Q := inject_Z (Z.of_nat m) / inject_Z (Z.of_nat N).
+Definition corner_hits (sqrt : Q -> Q) (N : nat) (t s : Q) : nat :=
+  length (filter (fun p => in_corner_region t s (sqrt (grid_u N (fst p))) (grid_u N (snd p)))
+                 (list_prod (seq 0 N) (seq 0 N))).
